@@ -108,6 +108,22 @@ Print Assumptions {pid}_periodic_disk_revolve.
 
 """
 
+def hrev_safety(pid, cls):
+    e = "err_" + cls
+    return f"""(* HRevolve (two levels): every N, every RAM count >= 1, any disk count and cost vector for which the constructor returns (its
+   dynamic program is not proved total); budgets RAM = snapshots_in_ram, DISK unbounded (the DISK budget itself: C03_hrevolve_refuted).
+   As for DiskRevolve the only verdict other than "no error" is E_leftover at the final EndReverse (D8) *)
+Theorem {pid}_hrevolve : forall (N ram disk uf ub wd rd : Z) (L : list Ops.op) (k : nat), 1 <= N -> 1 <= ram ->
+  RevConv.sequence RevConv.KHRevolve N ram disk uf ub wd rd = Ok L ->
+  exists o0 m ls, run_case (PRev RevConv.KHRevolve N ram disk uf ub wd rd) (DiskRun.disk_xparams N ram) (repeat Next k) = Ok (o0, m, ls) /\\ no_err {e} m /\\ no_raise ls.
+Proof.
+  intros N ram disk uf ub wd rd L k H1 H2 HL. destruct (HRevRun.hrevolve_run N ram disk uf ub wd rd L k H1 H2 HL) as (o0 & m & ls & E & Hl & Hm).
+  exists o0, m, ls. split; [exact E|]. split; [apply (DiskRun.leftover_no_err _ m Hm); intros []|exact Hl].
+Qed.
+Print Assumptions {pid}_hrevolve.
+
+"""
+
 def typ(mod, name):
     src = "From Coq Require Import ZArith List Bool.\nFrom CS Require Import %s.\nImport ListNotations.\nOpen Scope Z_scope.\nSet Printing Width 110.\nCheck @%s.%s.\n" % (mod, mod, name)
     p = subprocess.run(['coqtop','-R','.','CS','-quiet'], input=src, capture_output=True, text=True)
@@ -131,9 +147,10 @@ for l in open('/verif/properties.jsonl'):
 files = {}
 for pid, cls in [('C01','C01'),('C02','C02'),('C03','C03'),('C04','C04'),('C08','C08'),('C12','C12')]:
     body = HEAD % (pid, TITLES[pid]) + safety(pid, cls, '')
-    body = body.replace("From CS Require Import Actions", "From CS Require RevConv RevBridge4 RevolveRun Refuted DiskRun DiskBridge3.\nFrom CS Require Import Actions")
+    body = body.replace("From CS Require Import Actions", "From CS Require Ops RevConv RevBridge4 RevolveRun Refuted DiskRun DiskBridge3 HRevRun.\nFrom CS Require Import Actions")
     if pid != 'C04':
         body += disk_safety(pid, cls)
+        body += hrev_safety(pid, cls)
     else:
         body += '''(* DiskRevolve / PeriodicDiskRevolve: everything but this property's own error class is excluded -- the verdict is "no error" or
    E_leftover at the final EndReverse, and nothing raises (for E_leftover itself see the *_refuted theorems below) *)
@@ -141,6 +158,11 @@ Theorem C04_disk_revolve_only_leftover_partial : forall (N ram disk uf ub wd rd 
   exists o0 m ls, run_case (PRev RevConv.KDiskRevolve N ram disk uf ub wd rd) (DiskRun.disk_xparams N ram) (repeat Next k) = Ok (o0, m, ls) /\\ no_raise ls /\\ DiskBridge3.leftover_or_ok m.
 Proof. exact DiskRun.disk_revolve_run. Qed.
 Print Assumptions C04_disk_revolve_only_leftover_partial.
+Theorem C04_hrevolve_only_leftover_partial : forall (N ram disk uf ub wd rd : Z) (L : list Ops.op) (k : nat), 1 <= N -> 1 <= ram ->
+  RevConv.sequence RevConv.KHRevolve N ram disk uf ub wd rd = Ok L ->
+  exists o0 m ls, run_case (PRev RevConv.KHRevolve N ram disk uf ub wd rd) (DiskRun.disk_xparams N ram) (repeat Next k) = Ok (o0, m, ls) /\\ no_raise ls /\\ DiskBridge3.leftover_or_ok m.
+Proof. exact HRevRun.hrevolve_run. Qed.
+Print Assumptions C04_hrevolve_only_leftover_partial.
 
 '''
     if pid == 'C02':
@@ -155,6 +177,7 @@ Print Assumptions C04_disk_revolve_only_leftover_partial.
         body += lifted('C02_revolve_terminates','RevolveRun','revolve_terminates','completeness (Revolve): the op list is finite; from some request count on the schedule is exhausted, with no error on the way and exactly TC N s forward steps executed')
         body += lifted('C02_disk_revolve_terminates','DiskRun','disk_revolve_terminates','completeness (DiskRevolve, snapshots_in_ram >= 1): the op list is finite; from 2 |ops| + 2 requests on the schedule is exhausted, nothing raised on the way, and the only executor verdict possible besides "no error" is E_leftover at the final EndReverse (D8-C04)')
         body += lifted('C02_periodic_terminates','DiskRun','periodic_terminates','completeness (PeriodicDiskRevolve): the same')
+        body += lifted('C02_hrevolve_terminates','HRevRun','hrevolve_terminates','completeness (HRevolve, when the constructor returns): the same')
         body += lifted('C02_mixed_terminates','MixBridge','mixed_terminates','completeness (Mixed, both planner paths): within N (N + 3) + N + 2 requests the schedule is exhausted (EndReverse has been emitted, by C09_flags), and by then exactly C N S forward steps have been executed')
     for new, mod, name, cm in PARTIAL_SAFETY:
         body += lifted(new % pid, mod, name, cm)
@@ -231,7 +254,7 @@ Proof. exact twolevel_run. Qed.
 Print Assumptions C09_twolevel_passes.
 
 """
-mk('C09', ['MSTerm','OnlineFlags','Flags','RevConv','RevBridge4','RevolveRun','PassRepeat','Online','DiskRun','DiskBridge3'], [
+mk('C09', ['MSTerm','OnlineFlags','Flags','RevConv','RevBridge4','RevolveRun','PassRepeat','Online','DiskRun','DiskBridge3','HRevRun'], [
    lifted('C09_flags','Flags','C09_flags','FLAGS, all thirteen classes, every parameter tuple the constructor accepts, every history of next() / finalize(k) requests (ops), any executor parameters: before the first request is_exhausted = is_running = False; after every next() is_running = True; is_exhausted after a request = (the final action of the class has been yielded so far) -- final_action: EndForward for None, EndReverse for the offline classes and SingleDisk(move), none for SingleMemory, SingleDisk(copy), TwoLevel; no action is yielded once the final action has been seen (only StopIteration / an exception), and finalize never changes the flag. flags_hist is the trace rule, defined in Proofs/OnlineFlags.v'),
    C09_runs,
    lifted('C09_multistage_flags_on_runs','MultistageRun','multistage_flags','the same rule read on the raise-free Multistage runs of the run theorem (every line: is_running, and is_exhausted = (the action is EndReverse), StopIteration only with is_exhausted)'),
@@ -240,6 +263,7 @@ mk('C09', ['MSTerm','OnlineFlags','Flags','RevConv','RevBridge4','RevolveRun','P
    lifted('C09_revolve_terminates','RevolveRun','revolve_terminates','the offline Revolve schedule concludes'),
    lifted('C09_disk_revolve_terminates','DiskRun','disk_revolve_terminates','the offline DiskRevolve schedule concludes (is_exhausted True after 2 |ops| + 2 requests at most)'),
    lifted('C09_periodic_terminates','DiskRun','periodic_terminates','the offline PeriodicDiskRevolve schedule concludes'),
+   lifted('C09_hrevolve_terminates','HRevRun','hrevolve_terminates','the offline HRevolve schedule concludes (when its constructor returns)'),
    lifted('C09_mixed_terminates','MixBridge','mixed_terminates','the offline Mixed schedule concludes: exhausted within N (N + 3) + N + 2 requests'),
    lifted('C09_passes_repeat','PassRepeat','passes_repeat','EXACT REPEAT (SingleMemory, SingleDisk copy, TwoLevel): two loop-head states of the same object (r = 0, not exhausted, same class / pc / max_n; n and -- for TwoLevel -- the emptied snapshot list may differ) emit the same outcomes for ever (outs j = the outcomes of j requests)'),
    lifted('C09_after_endreverse','PassRepeat','after_endreverse','... and the request that yields EndReverse of a non-exhausting object leaves it in such a loop head with the same class and max_n; the head reached by EndForward is of the same form (C09_*_passes give executability of every pass)'),
@@ -319,8 +343,8 @@ mk('C17', ['NAdv','AllocProofs','InvalidProofs','RevConv','RevBridge4','RevolveR
    lifted('C17_disk_revolve_top_total','DiskGen','disk_revolve_top_total','the DiskRevolve op-list generator (both tables + recursion) never fails on the domain'),
    lifted('C17_periodic_top_total','PeriodGen','periodic_top_total','the PeriodicDiskRevolve op-list generator never fails on the domain, and its period is mxrr'),
    lifted('C17_revolve_family_rejects_partial','InvalidProofs','revolve_rejects','PARTIAL (Revolve family): max_n < 1 or no RAM unit for max_n > 1 is an exception at construction; that valid tuples always yield a complete stream is proved for Revolve, DiskRevolve, PeriodicDiskRevolve (C17_*_complete) but not for HRevolve (correspondence + oracle)')])
-C18_runs = safety('C18','C18','') + disk_safety('C18','C18')
-mk('C18', ['Repr','RevConv','RevBridge4','RevolveRun','DiskRun','OnlineWF'], [C18_runs, lifted('C18_basic_wf_every_history','OnlineWF','basic_wf_every_history','NoneCheckpointSchedule, SingleMemoryStorageSchedule, SingleDiskStorageSchedule under EVERY history (requests, valid or rejected finalize calls, Run loops, in any order and number; any executor parameters): every yielded action is well formed (wf_action: the E_malformed requirements of the executor)'), lifted('C18_wf_not_malformed','OnlineWF','wf_not_malformed','wf_action is exactly what the executor needs not to report E_malformed'), lifted('C18_z_roundtrip','Repr','z_roundtrip','decimal printing of integers parses back')])
+C18_runs = safety('C18','C18','') + disk_safety('C18','C18') + hrev_safety('C18','C18')
+mk('C18', ['Repr','Ops','RevConv','RevBridge4','RevolveRun','DiskRun','OnlineWF','HRevRun'], [C18_runs, lifted('C18_basic_wf_every_history','OnlineWF','basic_wf_every_history','NoneCheckpointSchedule, SingleMemoryStorageSchedule, SingleDiskStorageSchedule under EVERY history (requests, valid or rejected finalize calls, Run loops, in any order and number; any executor parameters): every yielded action is well formed (wf_action: the E_malformed requirements of the executor)'), lifted('C18_wf_not_malformed','OnlineWF','wf_not_malformed','wf_action is exactly what the executor needs not to report E_malformed'), lifted('C18_z_roundtrip','Repr','z_roundtrip','decimal printing of integers parses back')])
 mk('C19', ['PeriodProofs','PeriodShape'], [lifted('C19_periodic_shape','PeriodShape','periodic_shape','the whole operation sequence, every l = max_n - 1 >= 0 and cm >= 1: sweep ++ revolve(last segment) ++ (Read_disk + revolve(one period)) per disk checkpoint, last first; k disk checkpoints, written exactly while more than mx steps remain; the pieces come from the memory-only generator `revolve` on the opt_0 table (the generator of class Revolve: C07) and contain no disk operation; hence disk writes only in the sweep at 0, mx, ..., (k-1) mx, none afterwards, and each disk checkpoint is read exactly once'), lifted('C19_periodic_sweep_writes','PeriodProofs','periodic_sweep_writes','disk writes of the forward sweep are exactly at 0, m, 2m, ... while more than m steps remain'),
    lifted('C19_period_closed_form','PeriodProofs','periodic_period_closed_form','the period is beta(cm, tm) with tm the least t such that beta(cm+1, t) uf > wd + rd; independent of N')])
 
